@@ -222,6 +222,15 @@ func init() {
 			return c08HasExpr(p, "StateMachine", "ReadyToStream", "s.GetLastApplied() >= s.onDiskInitIndex") &&
 				c08HasExpr(p, "StateMachine", "ReadyToStream", "!s.OnDiskStateMachine()")
 		}),
+		// NodeHost.sendMessage: an on-disk replica (and only a non-witness target) is served by a stream, never by the recorded file
+		c08Bool("src_send_snapshot_decision", func() bool {
+			for _, c := range c08IfConds(root(), "NodeHost", "sendMessage") {
+				if c == "witness || !n.OnDiskStateMachine()" {
+					return true
+				}
+			}
+			return false
+		}),
 		// concurrentSave: prepare(), then Sync() unconditionally, then doSave
 		c08Bool("src_concurrent_save_syncs", func() bool {
 			return c08TopLevelIfInit(rsm(), "StateMachine", "concurrentSave", "err := s.sync()") &&
